@@ -5,7 +5,10 @@ What it understands (and nothing else; anything else raises TranslateError, whic
   `e?`, `&e` `&mut e` `*e`, `!e`, `&& || == != < <= > >=`, `if c {..} else if .. else {..}`, `if let PAT = e {..} else {..}`,
   `match e { PAT [if guard] => body, ... }` on fieldless enums / enums with one payload / Option,
   `matches!(e, PAT)`, blocks `{ let x = e; if c { return e; } ...; tail }`, `let PAT = e else { return r };`,
-  `let x = match e { P => return r, Q => v };`, `return e`, struct literals `S { a, b }`, closures (only inside atoms).
+  `let x = match e { P => return r, Q => v };`, `return e`, struct literals `S { a, b }`, closures (only inside atoms),
+  or-patterns without bindings, `a + b` at nat, `e as T` (transparent), comparisons at nat and at types with a declared
+  equality (Spec.eqs), a statement `if c { .. }` whose block may be left through its end (the statements after it follow),
+  with Spec.try_transparent `e?` read as its Ok value, assignments listed as ignorable.
 
 Translation is driven by a per-target Spec:
   atoms       normalised source text of a sub-expression -> (gallina term, type)    (checked before structure)
@@ -411,13 +414,36 @@ class Parser:
             a = Node("bin", ("&&", a, b), lo, self.p)
         return a
 
-    def p_cmp(self, ns):
+    def p_add(self, ns):
+        lo = self.p
+        a = self.p_cast(ns)
+        while self.peek() == "+":
+            self.p += 1
+            b = self.p_cast(ns)
+            a = Node("bin", ("+", a, b), lo, self.p)
+        return a
+
+    def p_cast(self, ns):
+        """`e as T` (T a path): a numeric cast, transparent for the translation (all integers are nat / N)"""
         lo = self.p
         a = self.p_unary(ns)
+        while self.peek() == "as":
+            self.p += 1
+            if self.peekk() != "id":
+                raise TranslateError("cast to a non-path type")
+            self.p += 1
+            while self.peek() == "::":
+                self.p += 2
+            a = Node("paren", a, lo, self.p)
+        return a
+
+    def p_cmp(self, ns):
+        lo = self.p
+        a = self.p_add(ns)
         if self.peek() in ("==", "!=", "<", "<=", ">", ">="):
             op = self.peek()
             self.p += 1
-            b = self.p_unary(ns)
+            b = self.p_add(ns)
             a = Node("bin", (op, a, b), lo, self.p)
         return a
 
@@ -670,7 +696,7 @@ def parse_block(toks, lo, hi):
 
 class Spec:
     def __init__(self, atoms=None, tail_atoms=None, calls=None, ctors=None, fields=None, ignorable=None,
-                 methods=None, ret=None, tail_default=None, struct=None):
+                 methods=None, ret=None, tail_default=None, struct=None, eqs=None, try_transparent=False):
         self.atoms = {norm_text(k): v for k, v in (atoms or {}).items()}
         self.tail_atoms = {norm_text(k): v for k, v in (tail_atoms or {}).items()}
         self.calls = {norm_text(k): v for k, v in (calls or {}).items()}
@@ -681,6 +707,8 @@ class Spec:
         self.ret = ret
         self.tail_default = tail_default
         self.struct = struct or {}
+        self.eqs = eqs or {}          # type -> gallina boolean equality (for == / != at that type)
+        self.try_transparent = try_transparent   # `e?` stands for its Ok value (the Err exit is not part of the decision)
 
 
 IGNORABLE_DEFAULT = [r"^log::(trace|debug|info|warn|error)!", r"^assert(_eq|_ne)?!", r"^debug_assert(_eq|_ne)?!",
@@ -742,7 +770,14 @@ class Translator:
             sp, b = self.pat(subs[0], payload)
             return "(%s %s)" % (g, sp), b
         if p.kind == "por":
-            raise TranslateError("or-pattern")
+            # `A | B`: allowed when no alternative binds a variable (Coq or-pattern)
+            parts = []
+            for alt in p.a:
+                g, b = self.pat(alt, ty)
+                if b:
+                    raise TranslateError("or-pattern that binds variables")
+                parts.append(g)
+            return " | ".join(parts), {}
         raise TranslateError("unsupported pattern kind " + p.kind)
 
     # ---- expressions -> (term, type)
@@ -772,8 +807,19 @@ class Translator:
             return "(negb %s)" % a, "bool"
         if k == "bin":
             op, x, y = n.a
-            a, ta = self.expr(x, env)
-            b, tb = self.expr(y, env)
+            if y.kind == "int" and x.kind != "int" and self.txt(y) not in self.s.atoms:
+                a, ta = self.expr(x, env)
+                b, tb = self.lit(y.a, ta)
+            elif x.kind == "int" and y.kind != "int" and self.txt(x) not in self.s.atoms:
+                b, tb = self.expr(y, env)
+                a, ta = self.lit(x.a, tb)
+            else:
+                a, ta = self.expr(x, env)
+                b, tb = self.expr(y, env)
+            if op == "+":
+                if ta != "nat" or tb != "nat":
+                    raise TranslateError("+ at types %s, %s" % (ta, tb))
+                return "(%s + %s)%%nat" % (a, b), "nat"
             if op in ("&&", "||"):
                 self.want(ta, "bool", x)
                 self.want(tb, "bool", y)
@@ -787,6 +833,19 @@ class Translator:
                 if op in (">", ">="):
                     a, b = b, a
                 return table[op] % (a, b), "bool"
+            if ty == "nat":
+                self.want(tb, "nat", y)
+                self.want(ta, "nat", x)
+                table = {"==": "(Nat.eqb %s %s)", "!=": "(negb (Nat.eqb %s %s))", "<": "(Nat.ltb %s %s)",
+                         "<=": "(Nat.leb %s %s)", ">": "(Nat.ltb %s %s)", ">=": "(Nat.leb %s %s)"}
+                if op in (">", ">="):
+                    a, b = b, a
+                return table[op] % (a, b), "bool"
+            if ty in self.s.eqs and op in ("==", "!="):
+                self.want(tb, ty, y)
+                self.want(ta, ty, x)
+                r = "(%s %s %s)" % (self.s.eqs[ty], a, b)
+                return (r if op == "==" else "(negb %s)" % r), "bool"
             if ty == "bool" and op in ("==", "!="):
                 r = "(Bool.eqb %s %s)" % (a, b)
                 return (r if op == "==" else "(negb %s)" % r), "bool"
@@ -841,9 +900,17 @@ class Translator:
                 vals = {f: self.expr(e, env) for f, e in fields}
                 return self.s.struct[name](vals)
             raise TranslateError("unknown struct literal %s" % name)
+        if k == "try" and self.s.try_transparent:
+            return self.expr(n.a, env)
         if k == "try":
             raise TranslateError("`?` outside an atom: %s" % text)
         raise TranslateError("unsupported expression %s: %s" % (k, text[:80]))
+
+    def lit(self, v, ty):
+        """an integer literal at the type of the other operand of a comparison"""
+        if ty == "nat":
+            return "%d%%nat" % v, "nat"
+        return "%d%%N" % v, "N"
 
     def want(self, got, exp, node):
         if got not in (exp, "?"):
@@ -976,13 +1043,17 @@ class Translator:
     def ignorable(self, text):
         return any(r.search(text) for r in self.s.ignorable)
 
-    def block_(self, n, env, tail):
+    def block_(self, n, env, tail, k=None):
         stmts, tl = n.a
-        return self.stmts(stmts, 0, tl, env, tail, n)
+        return self.stmts(stmts, 0, tl, env, tail, n, k)
 
-    def stmts(self, stmts, i, tl, env, tail, blk):
+    def stmts(self, stmts, i, tl, env, tail, blk, k=None):
+        """k: what follows when this block is left through its end without a value (a statement-`if` block that does
+        not return): a thunk giving the translation of the statements after that `if`"""
         if i >= len(stmts):
             if tl is None:
+                if k is not None:
+                    return k()
                 raise TranslateError("block without a value: %s" % self.txt(blk)[:60])
             return self.sub(tl, env, tail)
         s = stmts[i]
@@ -990,7 +1061,7 @@ class Translator:
         if s.kind == "expr":
             e = s.a
             if self.ignorable(text):
-                return self.stmts(stmts, i + 1, tl, env, tail, blk)
+                return self.stmts(stmts, i + 1, tl, env, tail, blk, k)
             if e.kind == "return":
                 if not tail:
                     raise TranslateError("return in non-result position")
@@ -999,26 +1070,38 @@ class Translator:
                 # `if c { ...; return r; }` : the then-block must end in a return
                 cond, then, _ = e.a
                 tstmts, ttail = then.a
+                if ttail is not None and ttail.kind == "if" and ttail.a[2] is None:
+                    # a trailing `if` without else has no value: it is the block's last statement
+                    tstmts, ttail = list(tstmts) + [Node("expr", ttail, ttail.lo, ttail.hi)], None
                 if ttail is None and tstmts and tstmts[-1].kind == "expr" and tstmts[-1].a.kind == "return":
                     then_node = Node("block", (tstmts[:-1], tstmts[-1].a), then.lo, then.hi)
                 elif ttail is not None and ttail.kind == "return":
                     then_node = then
+                elif ttail is None:
+                    then_node = None      # the block may be left through its end: the statements after the `if` follow
                 else:
-                    raise TranslateError("statement `if` whose block does not return: %s" % text[:70])
-                r, tr = self.stmts(stmts, i + 1, tl, env, tail, blk)
+                    raise TranslateError("statement `if` whose block has a value: %s" % text[:70])
+                r, tr = self.stmts(stmts, i + 1, tl, env, tail, blk, k)
+                if then_node is None:
+                    rest = lambda: self.stmts(stmts, i + 1, tl, env, tail, blk, k)
+                    clean = lambda e2: self.stmts(tstmts, 0, None, e2, True, then, rest)
+                else:
+                    clean = lambda e2: self.block_tail_clean(then_node, e2)
                 if cond.kind == "letcond":
                     pat, scrut = cond.a
                     a, ta = self.expr(scrut, env)
                     gp, b = self.pat(pat, ta)
                     env2 = dict(env)
                     env2.update(b)
-                    x, tx = self.block_tail_clean(then_node, env2)
+                    x, tx = clean(env2)
                     return "(match %s with %s => %s | _ => %s end)" % (a, gp, x, r), self.join(tx, tr)
                 c, tc = self.expr(cond, env)
                 self.want(tc, "bool", cond)
-                x, tx = self.block_tail_clean(then_node, env)
+                x, tx = clean(env)
                 return "(if %s then %s else %s)" % (c, x, r), self.join(tx, tr)
             raise TranslateError("statement with unknown effect: %s" % text[:80])
+        if s.kind == "assign" and self.ignorable(text):
+            return self.stmts(stmts, i + 1, tl, env, tail, blk, k)
         if s.kind == "assign":
             raise TranslateError("assignment statement: %s" % text[:80])
         if s.kind == "let":
@@ -1034,7 +1117,7 @@ class Translator:
                         bx, tb = self.expr(body, env2)
                         env3 = dict(env2)
                         env3[name] = tb
-                        r, tr = self.stmts(stmts, i + 1, tl, env3, tail, blk)
+                        r, tr = self.stmts(stmts, i + 1, tl, env3, tail, blk, k)
                         return "(let v_%s := %s in %s)" % (name, bx, r), tr
                     if rhs.kind == "match":
                         return self.match_(rhs, env, tail, cont=cont)
@@ -1042,7 +1125,7 @@ class Translator:
                 a, ta = self.expr(rhs, env)
                 env2 = dict(env)
                 env2[name] = ta
-                r, tr = self.stmts(stmts, i + 1, tl, env2, tail, blk)
+                r, tr = self.stmts(stmts, i + 1, tl, env2, tail, blk, k)
                 return "(let v_%s := %s in %s)" % (name, a, r), tr
             if els is not None:
                 # let PAT = e else { return r };
@@ -1053,14 +1136,14 @@ class Translator:
                 env2 = dict(env)
                 env2.update(b)
                 x, tx = self.block_tail_clean(els, env)
-                r, tr = self.stmts(stmts, i + 1, tl, env2, tail, blk)
+                r, tr = self.stmts(stmts, i + 1, tl, env2, tail, blk, k)
                 return "(match %s with %s => %s | _ => %s end)" % (a, gp, r, x), self.join(tx, tr)
             if pat.kind == "ptuple":
                 a, ta = self.expr(rhs, env)
                 gp, b = self.pat(pat, ta)
                 env2 = dict(env)
                 env2.update(b)
-                r, tr = self.stmts(stmts, i + 1, tl, env2, tail, blk)
+                r, tr = self.stmts(stmts, i + 1, tl, env2, tail, blk, k)
                 return "(let '%s := %s in %s)" % (gp, a, r), tr
             raise TranslateError("unsupported let pattern: %s" % text[:60])
         raise TranslateError("unsupported statement " + s.kind)
